@@ -1,8 +1,11 @@
 import Nsq.Model.Line
 import Nsq.Model.Guid
+import Nsq.Model.GuidClock
 import Nsq.Model.Num
+import Nsq.Model.RdyBytes
 import Nsq.Model.PQ
 import Nsq.Model.Timing
+import Nsq.Model.TimingOpts
 import Nsq.Model.Wire
 /-! Driver for engine E1 (codec / numeric / timing): one operation per input line, one canonical
 answer line out. The only state kept between lines is the channel of the `ch …` operations. -/
@@ -128,6 +131,19 @@ def stepLine (line : String) : String :=
       let r := Nsq.Model.Guid.newGUID { nodeID := node, seq := seq, lastTs := lastTs, lastID := lastID } now
       s!"{r.2.1.toInt} {errName r.2.2} {r.1.seq.toInt} {r.1.lastTs.toInt} {r.1.lastID.toInt}"
     | _, _, _, _, _ => "bad-op"
+  | ["genids", node, seq, lastTs, lastID, t0, tss] =>
+    match bv64 node, bv64 seq, bv64 lastTs, bv64 lastID, bv64 t0, (tss.splitOn ",").mapM bv64 with
+    | some node, some seq, some lastTs, some lastID, some t0, some tss =>
+      Nsq.Model.GuidClock.genidsAnswer node seq lastTs lastID t0 tss
+    | _, _, _, _, _, _ => "bad-op"
+  | ["optcheck", fixed, mt, max] =>
+    match mt.toInt?, max.toInt? with
+    | some mt, some max => Nsq.Model.TimingOpts.optcheckAnswer (fixed == "1") mt max
+    | _, _ => "bad-op"
+  | ["rdy", maxRdy, arg] =>
+    match bv64 maxRdy, (if arg = "none" then some none else (unhex arg).map some) with
+    | some maxRdy, some a => Nsq.Model.RdyBytes.rdyAnswer maxRdy (a.map toBV8)
+    | _, _ => "bad-op"
   | ["hex", g] =>
     match bv64 g with
     | some g => bytesToString (Nsq.Model.Guid.hex g)
